@@ -100,6 +100,29 @@ RAISE = _Raise()
 NORET = object()
 
 
+ALLOCATORS = ("zeros", "ones", "empty", "full", "zeros_like", "ones_like", "empty_like", "full_like", "array", "copy",
+              "arange", "linspace", "identity", "eye")
+SCALAR_FLAGS = ("scalar", "int", "size", "loopvar")
+SCALAR_FNS = ("shape", "len", "size", "ndim", "num.bit_length", "floordiv", "mod")
+
+
+def maybe_array(v):
+    """False only if the value is certainly a Python/NumPy scalar (immutable: `x += 1` rebinds one name)"""
+    if not isinstance(v, Rat):
+        return False
+    if v.is_const():
+        return False
+    for a in v.atoms(False):
+        if isinstance(a, Sym) and any(f in a.flags for f in SCALAR_FLAGS):
+            continue
+        if isinstance(a, Fn) and a.name in SCALAR_FNS:
+            continue
+        if isinstance(a, Fn) and a.name in ("sum", "mean", "max", "min", "std", "var", "prod") and len(a.args) > 1 and a.args[1] is None:
+            continue
+        return True
+    return False
+
+
 class State(object):
     __slots__ = ("env", "ret", "conds", "flow", "facts", "cond_nf")
 
@@ -118,6 +141,8 @@ class State(object):
                 v = v.clone()           # per-path object state
             elif isinstance(v, list):
                 v = list(v)
+            elif k == "__alias__":
+                v = dict(v)
             env[k] = v
         return State(env, self.ret, self.conds + ((cond,) if cond else ()), self.flow, self.facts,
                      self.cond_nf)
@@ -194,6 +219,7 @@ class Interp(object):
         self.functions_seen = set()
         self.param_flags = {}           # name -> flags for fresh symbols
         self.alloc_log = []
+        self.alias_log = []             # (fq, lineno, updated name, aliased name, stmt text, 'loop'|'line')
         self.rng_instances = 0
         self.draw_counts = {}
         self.drop_eps = True            # additive literals <= 1e-9 are epsilon guards: recorded and dropped
@@ -386,7 +412,33 @@ class Interp(object):
         v = self.ev(st.value, s.env, ctx)
         for t in st.targets:
             self.assign(t, v, s, ctx, st)
+        # names bound to freshly allocated arrays (their normal form may be a constant, e.g. zeros -> 0)
+        if len(st.targets) == 1 and isinstance(st.targets[0], ast.Name):
+            arrs = s.env.get("__arrays__", frozenset())
+            tn = st.targets[0].id
+            if isinstance(st.value, ast.Call) and norm_text(st.value.func).split(".")[-1] in ALLOCATORS:
+                s.env["__arrays__"] = arrs | {tn}
+            elif isinstance(st.value, ast.Name) and st.value.id in arrs:
+                s.env["__arrays__"] = arrs | {tn}
+            elif tn in arrs:
+                s.env["__arrays__"] = arrs - {tn}
+        # `a = b` binds a second name to the same array object: remember it, an in-place update of one is one of both
+        if len(st.targets) == 1 and isinstance(st.targets[0], ast.Name) and isinstance(st.value, ast.Name) \
+                and st.targets[0].id != st.value.id and (maybe_array(v) or st.value.id in s.env.get("__arrays__", ())):
+            al = s.env.setdefault("__alias__", {})
+            grp = set(al.get(st.value.id, (st.value.id,))) | {st.targets[0].id}
+            for n in grp:
+                al[n] = frozenset(grp)
         return [s]
+
+    def _alias_update(self, name, new, s, ctx, st):
+        al = s.env.get("__alias__")
+        if not al or name not in al:
+            return
+        for other in sorted(al[name]):
+            if other != name:
+                s.env[other] = new
+                self.alias_log.append((ctx.finfo.fq, st.lineno, name, other, norm_text(st), "line"))
 
     def st_AnnAssign(self, st, s, ctx):
         if st.value is not None:
@@ -404,11 +456,21 @@ class Interp(object):
             if isinstance(base, Rat):
                 old = Rat.atom(Fn("getitem", (base, idx)))
                 new = self.binop(st.op, old, rhs)
-                self.rebind(t.value, Rat.atom(Fn("setitem", (base, idx, new))), s, ctx)
+                nv = Rat.atom(Fn("setitem", (base, idx, new)))
+                self.rebind(t.value, nv, s, ctx)
+                if isinstance(t.value, ast.Name):
+                    self._alias_update(t.value.id, nv, s, ctx, st)
             return [s]
         cur = self.ev(_load(t), s.env, ctx)
         new = self.binop(st.op, cur, rhs)
+        grp = s.env.get("__alias__", {}).get(t.id) if isinstance(t, ast.Name) else None
         self.assign(t, new, s, ctx, st, aug=True)
+        if grp and (maybe_array(cur) or t.id in s.env.get("__arrays__", ())):
+            # ndarray in-place operator: every name bound to the same object sees the new contents
+            al = s.env.setdefault("__alias__", {})
+            for n in grp:
+                al[n] = grp
+            self._alias_update(t.id, new, s, ctx, st)
         return [s]
 
     def rebind(self, target_expr, value, s, ctx):
@@ -426,6 +488,14 @@ class Interp(object):
         if isinstance(t, ast.Name):
             s.env[t.id] = v
             self.assign_log.append((fq, t.id, st.lineno, v, s.conds))
+            al = s.env.get("__alias__")
+            if al and t.id in al:
+                grp = al.pop(t.id) - {t.id}
+                for n in grp:
+                    if len(grp) > 1:
+                        al[n] = grp
+                    else:
+                        al.pop(n, None)
         elif isinstance(t, (ast.Tuple, ast.List)):
             vals = self.unpack(v, len(t.elts))
             for te, ve in zip(t.elts, vals):
@@ -445,7 +515,10 @@ class Interp(object):
             idx = self.ev_index(t.slice, s.env, ctx)
             self.store_log.append((fq, norm_text(t.value), idx, v, st.lineno, "=", norm_text(st)))
             if isinstance(base, Rat):
-                self.rebind(t.value, Rat.atom(Fn("setitem", (base, idx, v))), s, ctx)
+                nv = Rat.atom(Fn("setitem", (base, idx, v)))
+                self.rebind(t.value, nv, s, ctx)
+                if isinstance(t.value, ast.Name):
+                    self._alias_update(t.value.id, nv, s, ctx, st)
             elif isinstance(base, list) and isinstance(idx, Rat) and isinstance(pyconst(idx), int):
                 base[pyconst(idx)] = v
         elif isinstance(t, ast.Starred):
@@ -538,6 +611,35 @@ class Interp(object):
                         attrs.append(b)
         return names, attrs
 
+    def _alias_carried(self, body):
+        """[(t, s, in-place statement)] for `t = s` (both plain names) followed in the body by an in-place write to t"""
+        out = []
+        pairs = []
+        for node in body:
+            for n in ast.walk(node):
+                if isinstance(n, ast.Assign) and len(n.targets) == 1 and isinstance(n.targets[0], ast.Name) \
+                        and isinstance(n.value, ast.Name) and n.value.id != n.targets[0].id:
+                    pairs.append((n.targets[0].id, n.value.id, n.lineno))
+        for t, s_, ln in pairs:
+            for node in body:
+                for n in ast.walk(node):
+                    hit = False
+                    if isinstance(n, ast.AugAssign) and n.lineno > ln:
+                        b = n.target
+                        while isinstance(b, ast.Subscript):
+                            b = b.value
+                        hit = isinstance(b, ast.Name) and b.id == t
+                    elif isinstance(n, ast.Assign) and n.lineno > ln:
+                        for tg in n.targets:
+                            if isinstance(tg, ast.Subscript):
+                                b = tg.value
+                                while isinstance(b, ast.Subscript):
+                                    b = b.value
+                                hit = hit or (isinstance(b, ast.Name) and b.id == t)
+                    if hit:
+                        out.append((t, s_, n))
+        return out
+
     def _accum_terms(self, body, name):
         """If every top-level write of `name` in body is `name += e` / `name = name + e`
         return the list of e nodes, else None."""
@@ -580,6 +682,13 @@ class Interp(object):
         tnames = [n.id for n in ast.walk(st.target) if isinstance(n, ast.Name)]
         carried = [n for n in names if n not in tnames]
         entry = {}
+        # a name bound (by `t = s`) to an array from outside the loop and then updated in place: the update is an
+        # update of `s`, which the next iteration reads again - `s` is carried from one iteration to the next
+        for t_, s_, node_ in self._alias_carried(st.body):
+            if s_ not in names and s_ not in tnames and s_ in s.env and \
+                    (maybe_array(s.env[s_]) or s_ in s.env.get("__arrays__", ())):
+                body_state.env[s_] = unk("carried", s_, st.lineno)
+                self.alias_log.append((fq, node_.lineno, t_, s_, norm_text(node_), "loop"))
         for n in carried:
             if n in s.env:
                 entry[n] = s.env[n]
@@ -980,6 +1089,11 @@ class Interp(object):
             c = pyconst(idx) if isinstance(idx, Rat) else None
             if isinstance(c, int):
                 return self.shape_elem(o.v, c)
+            if isinstance(idx, tuple) and idx and idx[0] == "slice":
+                lo, hi, stp = [None if x is None else pyconst(x) for x in idx[1:]]
+                # the trailing k extents: shape[-k:]  ->  (shape[-k], ..., shape[-1])
+                if isinstance(lo, int) and lo < 0 and hi is None and stp in (None, 1):
+                    return tuple(self.shape_elem(o.v, i) for i in range(lo, 0))
             return Rat.atom(Fn("shape", (o.v, idx)))
         if isinstance(o, (tuple, list)):
             c = pyconst(idx) if isinstance(idx, Rat) else None
